@@ -151,7 +151,7 @@ fn lattice(args: &Args, rep: &mut Report) {
                         let bdt = if v1 { (1u64 << 32) + 7 + t0 } else { 1000 + t0 };
                         fragments.push(Fragment {
                             runs: vec![Run { track: 0, samples, base, tfhd_duration: if tfhd_d { Some(333) } else { None }, per_sample_durations: per, cts_present: cts, tfdt_v1: v1,
-                                base_decode_time: bdt, data_offset: if off { Some(5) } else { None }, negative_offset: neg, tfhd_default_size: false, trun_sample_flags: false, first_sample_flags: false, also_default_base_flag: bits & 1 != 0 && base == BaseMode::Explicit }],
+                                base_decode_time: bdt, data_offset: if off { Some(5) } else { None }, negative_offset: neg, tfhd_default_size: false, trun_sample_flags: false, first_sample_flags: false, also_default_base_flag: bits & 1 != 0 && base == BaseMode::Explicit, no_trun: false }],
                             moof_large: false,
                         });
                         t0 += 5000;
@@ -184,7 +184,12 @@ pub fn run(args: &Args) -> i32 {
             continue;
         }
         let mut rng = Rng::derive(args.seed, 0xC09, i);
-        let (mf, mt, mr) = if i % 20 == 0 { (6, 3, 40) } else { (3, 2, 6) };
+        // scale: every 4000th movie has runs of up to 1500 samples (tables beyond any batch or
+        // buffer size a reader may use: 341 x 12, 512 x 8, 1024 x 4 bytes ...)
+        let (mf, mt, mr) = if i % 4000 == 7 { (3, 2, 1500) } else if i % 20 == 0 { (6, 3, 40) } else { (3, 2, 6) };
+        if i % 4000 == 7 {
+            rep.add("movies_with_long_runs", 1);
+        }
         // random mode stays outside the K2 region: all tracks share the trex defaults
         let fm = gen_frag_movie(&mut rng, mf, mt, mr, true);
         eval(&id, &fm, &mut rep, args);
@@ -201,7 +206,7 @@ pub fn run(args: &Args) -> i32 {
         fm.movie.tracks.push(t2);
         fm.trex = vec![(10, 0, 0), (20, 0, 0)];
         let mk = |track: usize, rng: &mut Rng| Run { track, samples: (0..3).map(|k| MSample { size: 4, fill: rng.next_u64(), delta: 0, cts: 0, sync: k == 0 }).collect(), base: BaseMode::DefaultBaseIsMoof,
-            tfhd_duration: None, per_sample_durations: false, cts_present: false, tfdt_v1: false, base_decode_time: 0, data_offset: Some(0), negative_offset: false, tfhd_default_size: false, trun_sample_flags: false, first_sample_flags: false, also_default_base_flag: false };
+            tfhd_duration: None, per_sample_durations: false, cts_present: false, tfdt_v1: false, base_decode_time: 0, data_offset: Some(0), negative_offset: false, tfhd_default_size: false, trun_sample_flags: false, first_sample_flags: false, also_default_base_flag: false, no_trun: false };
         fm.fragments = vec![Fragment { runs: vec![mk(0, &mut rng), mk(1, &mut rng)], moof_large: false }];
         fm.styp = false;
         eval("probe:K2", &fm, &mut rep, args);
